@@ -66,6 +66,11 @@ func (w *World) verifyFunc(fn *ssa.Function, ct *Contract, mode execMode) *FuncR
 			v := st.freshVal("p_"+p.Name(), p.Type())
 			args[i] = v
 			ex.entryVals[p.Name()] = v
+			for old, now := range ex.w.renames[nameKey(fn)] {
+				if now == p.Name() {
+					ex.entryVals[old] = v
+				}
+			}
 			ex.recordInputs(st, p.Name(), v)
 		}
 		var binds []Val
@@ -76,6 +81,11 @@ func (w *World) verifyFunc(fn *ssa.Function, ct *Contract, mode execMode) *FuncR
 			c := ex.newCell(fv.Name(), derefType(fv.Type()))
 			st.cells[c.ID] = st.freshVal("fv_"+fv.Name(), derefType(fv.Type()))
 			ex.entryVals[fv.Name()] = st.cells[c.ID]
+			for old, now := range ex.w.renames[nameKey(fn)] {
+				if now == fv.Name() {
+					ex.entryVals[old] = st.cells[c.ID]
+				}
+			}
 			ex.recordInputs(st, fv.Name(), st.cells[c.ID])
 			binds = append(binds, Val{K: KCellPtr, Typ: fv.Type(), Cell: c})
 		}
@@ -396,6 +406,16 @@ func (ex *Exec) structuralClauses(res *FuncResult) {
 		}
 		for _, want := range ct.selects {
 			ob := ex.obl(ex.rootName+"/selects:"+want, "structural")
+			if !have[want] {
+				// the channel variable was renamed since the contract was written (specs/names.json)
+				base, rest := want, ""
+				if i := strings.Index(want, "."); i >= 0 {
+					base, rest = want[:i], want[i:]
+				}
+				if now := ex.w.renamed(ex.root, base); now != "" && have[now+rest] {
+					have[want] = true
+				}
+			}
 			if have[want] {
 				ob.VCs = append(ob.VCs, VC{goal: "true", note: "select receives from " + want})
 			} else {
@@ -488,7 +508,8 @@ func (ex *Exec) tokenTracked(name string) string {
 	if al == nil {
 		return "no local variable of that name"
 	}
-	okUse := func(v ssa.Value, inClosure bool) string {
+	var okUse func(v ssa.Value, inClosure bool) string
+	okUse = func(v ssa.Value, inClosure bool) string {
 		for _, r := range *v.Referrers() {
 			switch x := r.(type) {
 			case *ssa.Send:
@@ -510,6 +531,57 @@ func (ex *Exec) tokenTracked(name string) string {
 			case *ssa.Call:
 				if bi, ok := x.Common().Value.(*ssa.Builtin); !ok || (bi.Name() != "close" && bi.Name() != "len" && bi.Name() != "cap") {
 					return "passed to " + x.Common().Value.Name()
+				}
+			case *ssa.ChangeType:
+				// chan T -> chan<- T / <-chan T
+				if why := okUse(x, inClosure); why != "" {
+					return why
+				}
+			case *ssa.Go:
+				// handed to a goroutine started from a named function: that function must declare `sends <name> once`
+				// for the parameter it receives the channel in, and must only send on it
+				cf := x.Common().StaticCallee()
+				if inClosure || cf == nil {
+					return "handed to a goroutine that is not a static call"
+				}
+				gct := ex.w.contractFor(cf)
+				okDecl := false
+				for ai, a := range x.Common().Args {
+					if a != v || ai >= len(cf.Params) {
+						continue
+					}
+					pname := cf.Params[ai].Name()
+					if gct != nil {
+						for _, sname := range gct.sendsOnce {
+							if sname == pname || ex.w.renamed(cf, sname) == pname {
+								okDecl = true
+							}
+						}
+					}
+					for _, pr := range *cf.Params[ai].Referrers() {
+						if st, ok := pr.(*ssa.Store); ok {
+							if al2, ok := st.Addr.(*ssa.Alloc); ok {
+								for _, r2 := range *al2.Referrers() {
+									if ld, ok := r2.(*ssa.UnOp); ok {
+										for _, r3 := range *ld.Referrers() {
+											switch y := r3.(type) {
+											case *ssa.Send:
+												if y.Chan != ld {
+													return "in " + shortFn(cf) + ": the channel itself is sent as a value"
+												}
+											case *ssa.DebugRef:
+											default:
+												return "in " + shortFn(cf) + ": " + fmt.Sprintf("used by %T", r3)
+											}
+										}
+									}
+								}
+							}
+						}
+					}
+				}
+				if !okDecl {
+					return "handed to goroutine " + shortFn(cf) + ", which has no `sends " + name + " once` contract"
 				}
 			case *ssa.DebugRef:
 			default:
